@@ -37,4 +37,11 @@ PROPS = {
         trusted_base=['hand-written models Model/Wire.v (protobuf sizes) and Model/Split.v (RPC.split, sendRPC filter); harness printer of pb structs as Gallina terms (identity by pointer / unique id strings)'],
         assumptions=['identity of IHAVE topics is the *string pointer, as in the code', 'XXX_unrecognized bytes only modelled inside published messages'],
     ),
+    'C02': dict(
+        coq=['Props/C02', 'Run/C02Run'],
+        go=[dict(run='^TestVF_C02Node$'), dict(run='^TestVF_C02TimeCache$', pkg='./timecache')],
+        trusted_base=['hand-written models Model/TimeCache.v and Model/Dedup.v (seen check, validation queue, markSeen gate, direct path, local publication, sweep under virtual time; ONE validation worker)'],
+        assumptions=['the message-ID function is deterministic (content-based in the harness)', 'signature verification, which precedes markSeen, is not part of this model (C03)',
+                     'with several validation workers the gate is still the atomic markSeen; the model (and the harness) fix one worker so that the interleaving is determined by the operations'],
+    ),
 }
